@@ -7,7 +7,9 @@
    an accepted input IS the strict encoding of the result (+ one flag byte where the API says so), so inputs with
    wrong lengths, trailing bytes, non-minimal integers, zero or out-of-range r or s are all rejected.  That the
    `der` / `ecdsa` crates implement this codec is tied by the malformed stream of the correspondence run (partial).
-   The recovery statements carry the premise [secp256k1_group] (see Props/C05.v) and x(kG) < n: k256 records a
+   The recovery statements carry the premise [secp256k1_group] (three statements: associativity of
+   padd, the two scalar-action laws; everything else - closure of padd/pneg/smul, commutativity, inverses, parity of -P,
+   lift_x, exact order of G, primality of p and n - is proved, see Props/C05.v and Proofs/SecpGroupPartial.v) and x(kG) < n: k256 records a
    recovery id whose x-reduced bit is never set, so for the 2^-128 fraction of nonces with x(kG) >= n the recorded
    id does not lead back to the key (not reachable by sampling; stated as a hypothesis). *)
 From BSV Require Import Base.Bytes Base.Hex.
